@@ -125,6 +125,19 @@ def world_tie_case(ctx: Ctx, case: Dict[str, Any], suite: str):
     pid = {p: i for i, p in enumerate(all_paths)}
     rep_paths = sorted(p for p in all_paths if ("0/" + p) in manifest and getattr(manifest["0/" + p], "replicated", False))
 
+    # the replication decision itself: globs + every rank's paths -> replicated set (TsModel/Glob.lean replicatedPaths)
+    if ctx.driver and case["glob"]:
+        cps = lambda t: [ord(c) for c in t]
+        ranks_in = [[{"path": cps(lp(a, k)), "sharded": False} for a, k, _ in st] for st in states]
+        rep_m = ctx.driver.call({"op": "rep_decide", "globs": [cps(g) for g in case["glob"]], "ranks": ranks_in})
+        if "replicated" in rep_m:
+            model_rep = sorted("".join(map(chr, p)) for p in rep_m["replicated"])
+            # paths holding primitives have no replicated flag to compare; restrict both sides to payload paths
+            payload = {p for p in all_paths if any(isinstance(manifest.get(f"{r}/{p}"), (TensorEntry, ChunkedTensorEntry, ObjectEntry)) for r in range(W))}
+            if sorted(p for p in model_rep if p in payload) != rep_paths:
+                ctx.disagree("rep_decide", {"case": case}, rep_paths, model_rep, "replicated paths chosen by the real take differ from the glob model")
+            ctx.count("world_tie.rep_decide")
+
     def entry_for(r: int, p: str):
         return manifest.get(("0/" if p in rep_paths else f"{r}/") + p)
 
